@@ -644,3 +644,51 @@ func MessageOf(raw []byte) (*shmsg.Message, bool) {
 	}
 	return msg.Msg, true
 }
+
+// NewAppAt is NewApp for a node that persists its state: the application is obtained from
+// LoadShutterAppFromFile (a fresh one when the file does not exist), as cmd/chain does.
+func NewAppAt(g Genesis, gobpath string) (*app.ShutterApp, error) {
+	sa, err := app.LoadShutterAppFromFile(gobpath)
+	if err != nil {
+		return nil, err
+	}
+	a := &sa
+	a.DevMode = g.DevMode
+	keypers := []common.Address{}
+	for _, k := range g.Keypers {
+		keypers = append(keypers, common.BytesToAddress(k))
+	}
+	var fh *app.ForkHeights
+	if !g.ForkNil {
+		fh = &app.ForkHeights{CheckInUpdateNew: app.ForkHeight{Enabled: g.ForkEnabled, Height: g.ForkHeight}}
+	}
+	gs := app.NewGenesisAppState(keypers, int(g.Threshold), g.InitialEon, fh)
+	gs.Threshold = g.Threshold
+	bs, err := amino.NewCodec().MarshalJSON(gs)
+	if err != nil {
+		return nil, err
+	}
+	var vals []abcitypes.ValidatorUpdate
+	for _, v := range g.Validators {
+		vals = append(vals, abcitypes.ValidatorUpdate{Power: v.P, PubKey: tmcrypto.PublicKey{Sum: &tmcrypto.PublicKey_Ed25519{Ed25519: v.K}}})
+	}
+	a.InitChain(abcitypes.RequestInitChain{ChainId: g.ChainID, Validators: vals, AppStateBytes: bs})
+	return a, nil
+}
+
+// CallsCoq / RespsCoq render lists for case constructors of other Corr modules.
+func CallsCoq(cs []Call) string {
+	xs := make([]string, len(cs))
+	for i, c := range cs {
+		xs[i] = CallCoq(c)
+	}
+	return vh.CList(xs)
+}
+
+func RespsCoq(rs []Resp) string {
+	xs := make([]string, len(rs))
+	for i, r := range rs {
+		xs[i] = RespCoq(r)
+	}
+	return vh.CList(xs)
+}
